@@ -1,0 +1,29 @@
+//  Copyright (c) 2026 Couchbase, Inc.
+//
+// Licensed under the Apache License, Version 2.0 (the "License");
+// you may not use this file except in compliance with the License.
+// You may obtain a copy of the License at
+//
+// 		http://www.apache.org/licenses/LICENSE-2.0
+//
+// Unless required by applicable law or agreed to in writing, software
+// distributed under the License is distributed on an "AS IS" BASIS,
+// WITHOUT WARRANTIES OR CONDITIONS OF ANY KIND, either express or implied.
+// See the License for the specific language governing permissions and
+// limitations under the License.
+
+//go:build verif
+
+package bleve
+
+import index "github.com/blevesearch/bleve_index_api"
+
+// SwapAnalysisQueue installs q as the analysis queue used by indexes
+// opened afterwards and returns the previous one WITHOUT closing it
+// (SetAnalysisQueueSize closes the old queue, which a simulator that
+// creates one queue per simulated run cannot tolerate).
+func SwapAnalysisQueue(q *index.AnalysisQueue) *index.AnalysisQueue {
+	old := Config.analysisQueue
+	Config.analysisQueue = q
+	return old
+}
